@@ -80,7 +80,47 @@ Proof.
     rewrite (ArenaThm.entries_sim pfx V peq contains is_bit_set plen lcp pzero am' _ R' M2), S1. reflexivity.
 Qed.
 
+Notation a_entry_insert2 := (Arena2.a_entry_insert pfx V peq contains is_bit_set plen lcp).
+(** [entry(q).insert(x)] (occupied or vacant) and [OccupiedEntry::remove] *)
+Theorem arena_C01_entry_returns am es q x : areach am -> ok q -> a_entries am = Ok es ->
+  (exists am', a_entry_insert am q x = Ok (am', abs_get es q) /\ a_entries am' = Ok (abs_insert es q x)) /\
+  (exists am', a_entry_remove am q = Ok (am', abs_get es q) /\ a_entries am' = Ok (abs_without es q)).
+Proof.
+  intros H Hq E.
+  destruct (ArenaProps.areach_view pfx V peq contains is_bit_set plen lcp pzero mcmp bits ok LAWS am es H E)
+    as (m & R & M & W & ->).
+  split.
+  - destruct (Arena2Thm.entry_insert_sim pfx V peq contains is_bit_set plen lcp pzero am m q x R M) as (am' & EI & R').
+    destruct (step_refines m (OEntryInsert pfx V q x) W (conj Hq I)) as (S1 & S2).
+    cbn [History.step Refine.a_step Refine.c_out fst snd] in S1, S2.
+    assert (ST : Arena2.a_step2 pfx V peq contains is_bit_set plen lcp pzero (AEntryIns q x) am = Ok am')
+      by (cbn [Arena2.a_step2]; rewrite EI; reflexivity).
+    pose proof (ArenaProps.areach_step pfx V peq contains is_bit_set plen lcp pzero ok (AEntryIns q x) am am' H Hq ST) as H'.
+    destruct (ArenaProps.areach_Rep pfx V peq contains is_bit_set plen lcp pzero mcmp bits ok LAWS am' H') as (m' & R2 & M2 & _).
+    pose proof (ArenaProps.Rep_fun pfx V am' _ _ R2 R') as EM. subst m'.
+    exists am'. split.
+    + rewrite EI. f_equal. f_equal. rewrite <- S2. unfold Arena2.t_entry_insert, History.occupied.
+      destruct (Trie.get pfx V peq contains is_bit_set plen (root m) q); reflexivity.
+    + rewrite (ArenaThm.entries_sim pfx V peq contains is_bit_set plen lcp pzero am' _ R' M2). f_equal.
+      rewrite <- S1. unfold Arena2.t_entry_insert, History.occupied.
+      destruct (Trie.get pfx V peq contains is_bit_set plen (root m) q); reflexivity.
+  - destruct (Arena2Thm.entry_remove_sim pfx V peq contains is_bit_set plen lcp pzero am m q R M) as (am' & EI & R').
+    destruct (step_refines m (OOccRemove pfx V q) W (conj Hq I)) as (S1 & S2).
+    cbn [History.step Refine.a_step Refine.c_out fst snd] in S1, S2.
+    assert (ST : Arena2.a_step2 pfx V peq contains is_bit_set plen lcp pzero (AEntryRem q) am = Ok am')
+      by (cbn [Arena2.a_step2]; rewrite EI; reflexivity).
+    pose proof (ArenaProps.areach_step pfx V peq contains is_bit_set plen lcp pzero ok (AEntryRem q) am am' H Hq ST) as H'.
+    destruct (ArenaProps.areach_Rep pfx V peq contains is_bit_set plen lcp pzero mcmp bits ok LAWS am' H') as (m' & R2 & M2 & _).
+    pose proof (ArenaProps.Rep_fun pfx V am' _ _ R2 R') as EM. subst m'.
+    exists am'. split.
+    + rewrite EI. f_equal. f_equal. rewrite <- S2. unfold Arena2.t_entry_remove, History.occupied.
+      destruct (Trie.get pfx V peq contains is_bit_set plen (root m) q); reflexivity.
+    + rewrite (ArenaThm.entries_sim pfx V peq contains is_bit_set plen lcp pzero am' _ R' M2). f_equal.
+      rewrite <- S1. unfold Arena2.t_entry_remove, History.occupied.
+      destruct (Trie.get pfx V peq contains is_bit_set plen (root m) q); reflexivity.
+Qed.
 End AO.
 
 Print Assumptions arena_C01_insert_returns.
 Print Assumptions arena_C01_remove_returns.
+Print Assumptions arena_C01_entry_returns.
